@@ -380,7 +380,13 @@ func (r *Runner) Step(op *Op) []Mismatch {
 		m.loadFail += uint64(m.opLoadFail)
 		r.checkStats(pre)
 	}
-	if pre.expHidden {
+	onExpired := pre.expHidden
+	for _, k := range pre.distinct {
+		if pre.keysExpired[k] {
+			onExpired = true
+		}
+	}
+	if onExpired {
 		for i := range m.mm {
 			m.mm[i].OnExpired = true
 		}
@@ -400,6 +406,7 @@ type preView struct {
 	expHidden bool // physically present but expired
 	keysLive  map[int]*ent
 	keysStale map[int]bool
+	keysExpired map[int]bool // requested keys whose entry had expired but was not swept
 	distinct  []int
 	expHits   int64
 	expMisses int64
@@ -420,6 +427,7 @@ func (m *Model) preState(op *Op) *preView {
 	if op.Kind == OpBulkGet || op.Kind == OpBulkRefresh {
 		p.keysLive = map[int]*ent{}
 		p.keysStale = map[int]bool{}
+		p.keysExpired = map[int]bool{}
 		seen := map[int]bool{}
 		for _, k := range op.Keys {
 			if seen[k] {
@@ -431,6 +439,8 @@ func (m *Model) preState(op *Op) *preView {
 				cp := *e
 				p.keysLive[k] = &cp
 				p.keysStale[k] = m.stale(e)
+			} else if m.phys[k] != nil {
+				p.keysExpired[k] = true
 			}
 		}
 	}
